@@ -254,6 +254,19 @@ def step (st : DState) (line : String) : DState × String :=
       | some es => showW2Map ((specWidth2Pairs es).reverse.map
           (fun e => ((e.1 : Rat), (WVal.num e.2.1, WVal.num e.2.2.1, WVal.num e.2.2.2))))
       | none => "bad-op")
+  | ["umapsel2", tu, reg, ord, enc, ttf, vert, shipped] =>
+    let str (h : String) : Option String := (bytesOfHex h).map (fun b => String.ofList (b.map (fun c => Char.ofNat c.toNat)))
+    let ob (h : String) : Option (Option Bytes) := if h == "-" then some none else (bytesOfHex h).map some
+    (st, match (if tu == "s" then some ToUni.stream else if tu == "-" then some ToUni.absent
+                else (str ((tu.drop 2).toString)).map ToUni.name), ob reg, ob ord, str enc with
+      | some tu, some reg, some ord, some enc =>
+        match fontUnicodeMap tu reg ord enc (ttf == "1") (vert == "1") (shipped == "1") with
+        | .file => "S file"
+        | .identity => "S identity"
+        | .ttf => "S ttf"
+        | .none => "S none"
+        | .collection c v => "S coll:" ++ c ++ ":" ++ (if v then "V" else "H")
+      | _, _, _, _ => "bad-op")
   | ["umapsel", tu, ord, coding, enc, ttf, vert, shipped] =>
     let str (h : String) : Option String := (bytesOfHex h).map (fun b => String.ofList (b.map (fun c => Char.ofNat c.toNat)))
     (st, match (if tu == "s" then some ToUni.stream else if tu == "-" then some ToUni.absent
